@@ -457,24 +457,4 @@ end Jmes
 
 section AxiomCheck
 open Jmes.C14C
-#print axioms compiled_fragment_noDiv
-#print axioms compiled_literals_valued_or_range
-#print axioms literal_out_of_range_not_valued
-#print axioms search_congr_fragment
-#print axioms search_congr_fragment_float
-#print axioms arith_small_congr
-#print axioms arith_small_exact
-#print axioms evaluate_float_arith_exact
-#print axioms evaluate_congr_float_arith
-#print axioms ieval_congr_float_arith
-#print axioms evaluate_congr_of_equiv_float_arith
-#print axioms exA_related
-#print axioms search_congr_float_arith
-#print axioms exTextA_ok
-#print axioms sum_congr_float
-#print axioms avg_congr_float
-#print axioms sum_of_rr
-#print axioms avg_of_rr
-#print axioms evaluate_sum_congr_float
-#print axioms evaluate_avg_congr_float
 end AxiomCheck
